@@ -31,6 +31,7 @@ type c28Spec struct {
 	SymLen   int    `json:"sym_len"` // length of the symbol component of the key
 	NCmd     int    `json:"ncmd,omitempty"`
 	Ext      int    `json:"ext,omitempty"` // offset/index extreme selector
+	Recreate bool   `json:"recreate,omitempty"` // real pass: the bucket existed before with another schema, was written and destroyed
 }
 
 var c28NameLens = []int{1, 31, 32, 33, 64, 255, 256, 300}
@@ -41,7 +42,7 @@ func init() {
 		ID:    "C28",
 		Level: "exploration",
 		Rule: "real pass: column-name lengths {1,31,32,33,64,255,256,300} x column counts {1,2,3,255,256} x {fixed,variable} x payload {1 row, 3 rows in 3 intervals, 1000 records in one interval (variable) / 150 intervals (fixed)} x symbol length {4, 200, 255}: " +
-			"create + write through the server, decode the WAL's transaction with ParseTGData, compare file, record type, offset, index, payload, schema; " +
+			"create + write through the server, decode the WAL's transaction with ParseTGData, compare file, record type, offset, index, payload, schema (also for a bucket that existed before under the same key with another schema and was destroyed); " +
 			"synthetic pass: the accepted shapes x 1-3 commands x offset/index extremes through serializeTG -> ParseTGData. distinct by spec; non-trivial = write accepted",
 		Assume:   []string{"export hook VerifSerializeTG (overlay-added file in package executor) for the synthetic pass", "independent WAL decoder mc/walfmt.go"},
 		QuickMax: 4 * time.Minute, ThorMax: 15 * time.Minute,
@@ -62,6 +63,9 @@ func c28Enum(c *mc.Ctx, yield func(c28Spec)) {
 						}
 						yield(c28Spec{Pass: "real", NameLen: nl, NCols: nc, Variable: v, Rows: rows, SymLen: sl})
 					}
+				}
+				if nl == 31 && nc <= 3 {
+					yield(c28Spec{Pass: "real", NameLen: nl, NCols: nc, Variable: v, Rows: 3, SymLen: 4, Recreate: true})
 				}
 				for ncmd := 1; ncmd <= 3; ncmd++ {
 					for ext := 0; ext < 4; ext++ {
@@ -130,6 +134,27 @@ func c28Run(c *mc.Ctx, s c28Spec) {
 	types := make([]string, s.NCols)
 	for i := range types {
 		types[i] = "i4"
+	}
+	if s.Recreate {
+		// an earlier incarnation of the same key with another schema, in the same server process
+		t0 := time.Date(2021, 3, 4, 9, 0, 0, 0, time.UTC)
+		old := csFixed([]time.Time{t0}, []string{"Old", "Older"}, []any{[]float64{1.5}, []float64{2.5}})
+		if s.Variable {
+			old = csVar([]time.Time{t0}, []string{"Old", "Older"}, []any{[]float64{1.5}, []float64{2.5}})
+		}
+		if err := w.Create(key, []string{"Old", "Older"}, []string{"f8", "f8"}, s.Variable); err != nil {
+			c.Violate("harness|recreate", "first create: "+err.Error())
+			return
+		}
+		if err := w.WriteCS(key, old, s.Variable); err != nil {
+			c.Violate("harness|recreate", "first write: "+err.Error())
+			return
+		}
+		if err := w.Destroy(key); err != nil {
+			c.Violate("harness|recreate", "destroy: "+err.Error())
+			return
+		}
+		cls += "|recreated-bucket"
 	}
 	if err := w.Create(key, names, types, s.Variable); err != nil {
 		c.Eval(fmt.Sprint(s), false)
